@@ -13,6 +13,8 @@ import (
 	"go/parser"
 	"go/token"
 	"go/types"
+	"golang.org/x/tools/go/ssa"
+	"golang.org/x/tools/go/ssa/ssautil"
 	"os"
 	"path/filepath"
 	"sort"
@@ -240,6 +242,16 @@ func cmdSelftest(args []string) int {
 		check("evalGuard", strings.Join(got, ",") == "true,true,false,false", "escaping-path predicate on [.. ../a a/b .] = %v", got)
 	}
 
+	// 5b. zero-expected SSA rules keep a positive example: stale error returns (R-STALE-ERR), with and without defer
+	if fns, err := ssaSnippet(selftestStaleErr); err != nil {
+		check("ssa snippet", false, "%v", err)
+	} else {
+		for name, want := range map[string]int{"plain": 1, "deferred": 1, "fine": 0, "wrapped": 0} {
+			got := len(staleErrReturns(fns[name]))
+			check("staleErrReturns/"+name, got == want, "%d stale `return nil, err` found (want %d)", got, want)
+		}
+	}
+
 	// 6. every rule table entry that names a function has the documented key shape
 	var badKeys []string
 	for k := range c14NameFilterAllowed {
@@ -261,4 +273,78 @@ func cmdSelftest(args []string) int {
 	}
 	fmt.Println("selftest: all passed")
 	return 0
+}
+
+const selftestStaleErr = `package snippet
+
+type T struct{}
+
+func read() ([]byte, error) { return nil, nil }
+func valid(b []byte) bool   { return len(b) > 0 }
+func cleanup(*error)        {}
+
+func plain() (*T, error) {
+	b, err := read()
+	if err != nil {
+		return nil, err
+	}
+	if !valid(b) {
+		return nil, err // err is nil here
+	}
+	return &T{}, nil
+}
+
+func deferred() (_ *T, retErr error) {
+	defer func() { cleanup(&retErr) }()
+	b, err := read()
+	if err != nil {
+		return nil, err
+	}
+	if !valid(b) {
+		return nil, err // err is nil here
+	}
+	return &T{}, nil
+}
+
+func fine() (*T, error) {
+	b, err := read()
+	if err != nil {
+		return nil, err
+	}
+	if !valid(b) {
+		return nil, errInvalid
+	}
+	return &T{}, nil
+}
+
+func wrapped() (*T, error) {
+	b, err := read()
+	if !valid(b) {
+		return nil, err // not known to be nil: no test dominates
+	}
+	return &T{}, err
+}
+
+var errInvalid error
+`
+
+// ssaSnippet type-checks and builds SSA for an import-free snippet and returns its functions by name.
+func ssaSnippet(src string) (map[string]*ssa.Function, error) {
+	fset := token.NewFileSet()
+	f, err := parser.ParseFile(fset, "snippet.go", src, 0)
+	if err != nil {
+		return nil, err
+	}
+	pkg := types.NewPackage("snippet", "snippet")
+	spkg, _, err := ssautil.BuildPackage(&types.Config{}, fset, pkg, []*ast.File{f}, ssa.SanityCheckFunctions)
+	if err != nil {
+		return nil, err
+	}
+	out := map[string]*ssa.Function{}
+	for name, m := range spkg.Members {
+		if fn, ok := m.(*ssa.Function); ok {
+			out[name] = fn
+		}
+	}
+	return out, nil
 }
